@@ -37,7 +37,7 @@ func (cleanScen) Decode(raw json.RawMessage) (any, error) {
 	return &c, err
 }
 func (cleanScen) Rule(string) string {
-	return "case = a project tree (files inside and outside declared outputs, nested and empty directories, pre-existing and missing outputs, hidden files) + a spokfile declaring 0-5 outputs: literal paths (files, directories, degenerate '', '.', '..', 'spokfile'), named outputs whose variables are string literals, join(...) or degenerate ('', '.', the project directory), output globs (matching some, none, hidden files), with or without a task named clean, with or without an earlier run, invoked from the root or a nested directory, optionally with the n-th removal failing (EACCES injected at the removal seam). Oracle: full snapshot of $HOME before/after; the removal seam vetoes and records any attempt on the spokfile, the project directory, an ancestor or anything outside the sandbox. distinct_nontrivial = distinct (output kinds and degeneracy, clean task?, cwd, fault, outcome) tuples."
+	return "case = a project tree (files inside and outside declared outputs, nested and empty directories, pre-existing and missing outputs, hidden files) + a spokfile declaring 0-5 outputs: literal paths (files, directories, degenerate '', '.', '..', 'spokfile'), named outputs whose variables are string literals, join(...) or degenerate ('', '.', the project directory), output globs (matching some, none, hidden files), symbolic links (to files, directories, nothing) matched by output globs or named exactly like a literal / named output, with or without a task named clean, with or without an earlier run, invoked from the root or a nested directory, optionally with the n-th removal failing (EACCES injected at the removal seam). Oracle: full snapshot of $HOME before/after; the removal seam vetoes and records any attempt on the spokfile, the project directory, an ancestor or anything outside the sandbox. distinct_nontrivial = distinct (output kinds and degeneracy, clean task?, cwd, fault, outcome) tuples."
 }
 
 var clFiles = []string{"out/a.o", "out/b.o", "out/sub/c.o", "bin/app", "gen.txt", "keep.txt", "src/main.c", "src/gen.c", ".hidden.o", "docs/readme.md", "a.o",
